@@ -13,12 +13,14 @@
                  policies; `C08_reps_cover`: every alphabet character has a representative of its class (class =
                  replacement shape of `C13_shapes`, or letter / digit / space / newline / punctuation).
   * `C08_encode_chunks` (proved, in `C08Defs`): the encoder output is the concatenation of per-character chunks.
-  * `C08_lift`   (proved): `C08_full` follows from the two named missing steps `C08_concat_stmt` (a chunk parsed and
+  * `C08_lift`   (proved): `C08_full` follows from the two named steps `C08_concat_stmt` (a chunk parsed and
                  rendered after a neighbour behaves as it does after that neighbour alone) and `C08_class_stmt`
                  (the behaviour of a pair depends on the classes of its members only) — by induction over the string
                  with `C08_char`, `C08_pair`, `C08_reps_cover`.
-  * `C08_full`   the statement for all strings: NOT PROVED (needs the two steps above, which are statements about the
-                 parser and renderer models on arbitrary concatenations of chunks).
+  * `C08_full`   the statement for all strings: stated here, PROVED in `PylxProofs/C08F.lean`
+                 (`Pylx.C08.Full.C08_full_proved`, by a direct route: exact parse of the encoder-output grammar, laws of
+                 the renderer loop, kernel evaluation per chunk, induction over the string); the two steps of `C08_lift`
+                 are consequences (`C08_concat_proved`, `C08_class_proved`).
   * `C08_parbreak_false`, `C08_ligature_false`, `C08_none_false`: witnesses that the side conditions are needed
                  (paragraph breaks are normalised to "\n\n"; `--` is read as an en dash; scheme `none` fuses a control
                  word with the following letter).
@@ -153,12 +155,12 @@ theorem C08_class_pairs (x y : Nat) (hx : x ∈ Gen.c08Alphabet) (hy : y ∈ Gen
 
 /-! ### the statement for all strings and the lift -/
 
-/-- **C08, full statement — NOT PROVED.**  Every string over the invertible alphabet without a paragraph break other
+/-- **C08, full statement** (proved in `PylxProofs/C08F.lean`: `Pylx.C08.Full.C08_full_proved`).  Every string over the invertible alphabet without a paragraph break other
     than exactly `"\n\n"` round-trips under every brace-protection scheme and both whitespace policies. -/
 def C08_full : Prop :=
   ∀ pr ∈ schemes, ∀ pol ∈ policies, ∀ s : Str, (∀ c ∈ s, InAlphabet c) → ParClean s = true → RoundTrips pr pol s
 
-/-- **Missing step 1 (chunk independence).**  Prefixing a character to a string that round-trips gives a string that
+/-- **Step 1 of the lift (chunk independence;** proved in `PylxProofs/C08F.lean` as a consequence of `C08_full`**).**  Prefixing a character to a string that round-trips gives a string that
     round-trips, provided the character alone and the character with its new neighbour do: the chunk of `c` is
     self-delimiting under a brace-protection scheme, so the parser reads `chunk c ++ rest` as the nodes of
     `chunk c` followed by the nodes of `rest` (positions shifted), up to the interaction with the first chunk of
@@ -168,7 +170,7 @@ def C08_concat_stmt : Prop :=
     (∀ x ∈ c :: d :: r, InAlphabet x) → ParClean (c :: d :: r) = true →
     RoundTrips pr pol [c] → RoundTrips pr pol [c, d] → RoundTrips pr pol (d :: r) → RoundTrips pr pol (c :: d :: r)
 
-/-- **Missing step 2 (class invariance).**  Whether a two-character string round-trips depends on the classes of the
+/-- **Step 2 of the lift (class invariance;** proved in `PylxProofs/C08F.lean` as a consequence of `C08_full`**).**  Whether a two-character string round-trips depends on the classes of the
     two characters only. -/
 def C08_class_stmt : Prop :=
   ∀ pr ∈ schemes, ∀ pol ∈ policies, ∀ a b a' b' : Nat,
@@ -181,7 +183,7 @@ theorem roundTrips_nil : ∀ pr ∈ schemes, ∀ pol ∈ policies, RoundTrips pr
   exact okWith_spec (s := []) h
 
 /-- **C08 (lift).**  The statement for all strings follows from the single-character and representative-pair
-    theorems and the two missing steps, by induction over the string. -/
+    theorems and the two steps, by induction over the string. -/
 theorem C08_lift (hconcat : C08_concat_stmt) (hclass : C08_class_stmt) : C08_full := by
   intro pr hpr pol hpol s
   induction s with
